@@ -1027,8 +1027,11 @@ func jsonTreesEqual(a, b *jnode) bool {
 	case 'b':
 		return a.b == b.b
 	case 'n':
-		x, _, e1 := big.ParseFloat(a.s, 10, 2048, big.ToNearestEven)
-		y, _, e2 := big.ParseFloat(b.s, 10, 2048, big.ToNearestEven)
+		// two spellings are the same number when the documented number parser (512-bit mantissa,
+		// round to nearest even) reads them as the same number: "1e308" and 1 followed by 308
+		// zeros are, the shortest text of a 53-bit whole number and its exact digits are not
+		x, _, e1 := big.ParseFloat(a.s, 10, 512, big.ToNearestEven)
+		y, _, e2 := big.ParseFloat(b.s, 10, 512, big.ToNearestEven)
 		return e1 == nil && e2 == nil && x.Cmp(y) == 0
 	case 'a':
 		for i := range a.vals {
